@@ -1,15 +1,23 @@
 """C17 — FSIM file transfers deliver identical files or nothing.
 
-Pipeline: (1) TLC checks the invariants of Fsim.tla exhaustively (all lengths, chunkings, corruption
-classes and positions within small bounds); (2) TLC prints every maximal behaviour of Fsim_Gen with
-its scenario (module, length, chunk, corruption, position, delta) and verdict (placed / failed);
-(3) the concretiser maps a scenario onto concrete transfers: file sizes around multiples of the
+Pipeline: (1) TLC checks the invariants of Fsim.tla exhaustively: single transfers (all lengths, chunkings,
+corruption classes and positions, HTTP server behaviours for wget within small bounds) and SESSIONS of up
+to three transfers through one module instance (the module must be idle again after every Finalize, so
+every transfer is judged on its own); two probes show the session dimension is not vacuous (a transfer
+placed after a refused one is reachable; a model whose refusing Finalize keeps the module state violates
+HonestSucceeds); (2) TLC prints every maximal behaviour of Fsim_Gen as a session: for each transfer its
+scenario (module, length, chunk, corruption, position, delta, HTTP server behaviour) and verdict (placed /
+failed); (3) the concretiser maps a scenario onto concrete transfers: file sizes around multiples of the
 effective chunk (chunk size classes 1, small, 1014, 65535, 0, -1; MTU classes), which data message /
-announced value is altered; (4) `vh fsim-replay` runs the real fsim modules in a real TO2 (wget against
-a local HTTP server), with the alteration applied by a wrapper between the library and the receiving
-module, and records what the receiver was told and given and what the run left behind; (5) every run is
-validated against Fsim_Trace.tla (the outcome must be the outcome of Finalize/Stall in the state the
-recorded announcements and chunks lead to) and compared with the verdict TLC attached to its scenario.
+announced value is altered, how the HTTP server frames its response (Content-Length / chunked / flushed in
+pieces / HTTP/1.0 close-delimited / Content-Length of the original file with a shorter or longer body /
+redirect); (4) `vh fsim-replay` runs the real fsim modules in a real TO2 session per case (all transfers of
+a session through the same device module instance; wget against local HTTP servers), with the alteration
+applied by a wrapper between the library and the receiving module, and records what the receiver was told
+and given and what every transfer left behind (destination, temp directory, reports); (5) every session is
+validated against Fsim_Trace.tla (the outcome of each transfer must be the outcome of Finalize/Stall in the
+state the recorded announcements and chunks of that transfer lead to, the module idle in between, the
+destination at the end exactly the placed files) and compared with the verdicts TLC attached to it.
 """
 import json
 import os
@@ -33,13 +41,10 @@ def chunk_param_value(p):
 DL_FLOOR = 200      # below this the four announcements of DownloadContents do not fit one message
 WGET_FLOOR = 200
 UP_FIT = 1014 + 3 + 1 + (len("fdo.upload:data") + 1) + 1 + 2 + 5   # owner MTU at which a 1014-byte chunk travels in one KV
+NOCL = ("nocl", "flushed", "close")
 
 
-def concretise(b, rnd, quick, cid):
-    sc = b["sc"]
-    mod, L, C, cor, k, d = sc["mod"], sc["len"], sc["chunk"], sc["cor"], sc["k"], sc["d"]
-    q, r = divmod(L, C)
-    out = []
+def variants_for(mod):
     if mod == "download":
         variants = [(0, 0), (1, 0), (7, 256), (1014, 4096), (65535, 0), (-1, 65535), (0, 256), (-1, 1300), (1014, 65535), (7, 65535)]
         dense = [(0, m) for m in range(DL_FLOOR, DL_FLOOR + 24)] + [(0, 1299), (0, 1301), (-1, 65534), (1014, 1043), (1014, 1044), (2, 300)]
@@ -52,34 +57,59 @@ def concretise(b, rnd, quick, cid):
         variants = [(0, 0), (0, 256), (0, 65535), (0, 4096), (0, 300)]
         dense = [(0, m) for m in range(WGET_FLOOR, WGET_FLOOR + 8)]
         floor_variants = [(0, 64), (0, 120)]
-    if quick:
+    return variants, dense, floor_variants
+
+
+def concretise_xfer(x, rnd, chunkp, mtu):
+    """One transfer of a TLC behaviour (scenario + verdict) as a concrete transfer."""
+    sc = x["sc"]
+    mod, L, C, cor, k, d, srv = sc["mod"], sc["len"], sc["chunk"], sc["cor"], sc["k"], sc["d"], sc["srv"]
+    q, r = divmod(L, C)
+    if mod == "download":
+        E = max(1, min(chunk_param_value(chunkp), dl_payload(mtu)))
+    elif mod == "upload":
+        E = 1014
+    else:
+        E = rnd.choice([1014, 4096, 65535, 100])      # for "flushed" the size of a flushed piece
+    rem = 0 if r == 0 else (1 if r == 1 else max(1, E - 1))
+    size = max(1, q * E + rem)
+    delta = 1 if d == 1 else max(1, E if rnd.random() < 0.7 else E + 1)
+    if cor == "len-" and d >= L:
+        delta = size              # the abstract scenario announces zero
+    elif cor == "len-":
+        delta = max(1, min(delta, size - 1))
+    may_stall = mod != "wget" and (cor == "len+" or (cor == "len-" and delta >= size))
+    return {"seed": rnd.getrandbits(40), "size": size, "may_stall": may_stall, "chunk": chunkp, "cor": cor, "cor_idx": k - 1, "delta": delta,
+            "srv": srv, "piece": E if srv == "flushed" else 0, "expect": x["expect"], "stalled_in_spec": x["stalled"],
+            "class": "%s/len=%dq+%s/chunk=%s/%s%s" % (mod, q, "0" if r == 0 else ("1" if r == 1 else "E-1"), chunkp, cor,
+                                                    "" if srv == "na" else "/srv=" + srv)}
+
+
+def concretise(b, rnd, quick):
+    """A TLC behaviour (session) as concrete sessions: one per MTU / chunk-parameter variant picked."""
+    mod, xs = b["sess"]["mod"], b["xs"]
+    single = len(xs) == 1
+    variants, dense, floor_variants = variants_for(mod)
+    if quick or not single:
         picks = rnd.sample(variants, 1)
     else:
         picks = rnd.sample(variants, min(len(variants), 5)) + rnd.sample(dense, 3)
-    if floor_variants and rnd.random() < (0.08 if quick else 0.25):
+    if single and floor_variants and rnd.random() < (0.08 if quick else 0.25):
         picks.append(rnd.choice(floor_variants) + ("floor",))
+    out = []
     for p in picks:
         chunkp, mtu = p[0], p[1]
         floor = len(p) > 2
-        if mod == "download":
-            E = max(1, min(chunk_param_value(chunkp), dl_payload(mtu)))
-        elif mod == "upload":
-            E = 1014
-        else:
-            E = rnd.choice([1014, 4096, 65535, 100])
-        rem = 0 if r == 0 else (1 if r == 1 else max(1, E - 1))
-        size = max(1, q * E + rem)
-        delta = 1 if d == 1 else max(1, E if rnd.random() < 0.7 else E + 1)
-        if cor == "len-" and d >= L:
-            delta = size              # the abstract scenario announces zero
-        elif cor == "len-":
-            delta = max(1, min(delta, size - 1))
-        c = {"id": cid + len(out), "seed": rnd.getrandbits(40), "module": mod, "size": size, "chunk": chunkp,
-             "dev_mtu": mtu if mod != "upload" else 0, "own_mtu": mtu if mod == "upload" else 0,
-             "cor": cor, "cor_idx": k - 1, "delta": delta, "must": rnd.random() < 0.3, "floor": floor,
-             "expect": b["expect"], "class": "%s/len=%dq+%s/chunk=%s/%s" % (mod, q, "0" if r == 0 else ("1" if r == 1 else "E-1"), chunkp, cor),
-             "timeout_ms": 4000 if (mod != "wget" and (cor == "len+" or (cor == "len-" and delta >= size))) else (10000 if quick else 20000)}
-        out.append(c)
+        xfers = []
+        for x in xs:
+            # within a session the chunk parameter varies from file to file, the MTUs are the session's
+            cp = chunkp if single else rnd.choice([v[0] for v in variants])
+            xfers.append(concretise_xfer(x, rnd, cp, mtu))
+        must = b["sess"]["must"] if not single else (rnd.random() < 0.3)
+        out.append({"module": mod, "dev_mtu": mtu if mod != "upload" else 0, "own_mtu": mtu if mod == "upload" else 0,
+                    "must": must, "floor": floor, "xfers": xfers,
+                    # a transfer that may never finalize is ended 4 s after it began; anything else has time (the machine may be busy)
+                    "stall_ms": 4000, "timeout_ms": 45000})
     return out
 
 
@@ -99,6 +129,10 @@ def split_runs(evs):
             runs.append([])
         runs[-1].append(ev)
     return runs
+
+
+def xends(rr):
+    return [e for e in rr if e["ev"] == "xend"]
 
 
 def validate_batch(ctx, runs, label):
@@ -134,6 +168,55 @@ def validate_batch(ctx, runs, label):
     return rejected
 
 
+def design_level(ctx, quick):
+    """Exhaustive model checks and the two probes of the session dimension, side by side."""
+    jobs = [("mc", "Fsim_MC.cfg" if quick else "Fsim_MC_big.cfg"), ("mc", "Fsim_MC_sess.cfg"),
+            ("probe", "Fsim_MC_probe.cfg", "HonestSucceeds")]
+    if not quick:       # quick: generate() shows the same on the printed sessions
+        jobs.append(("probe", "Fsim_MC_vac.cfg", "NeverAfterRefusal"))
+
+    def one(j):
+        if j[0] == "mc":
+            return ctx.model_check("Fsim", j[1], timeout=900, workers=2)
+        return ctx.tlc("Fsim", j[1], timeout=900, workers=1, quiet=True)
+    with ThreadPoolExecutor(max_workers=4) as ex:
+        res = list(ex.map(one, jobs))
+    for j, r in zip(jobs, res):
+        if j[0] == "probe" and not any(j[2] in v for v in r["violated"]):
+            raise Inconclusive("probe %s: the model does not reach a violation of %s; the session dimension is vacuous:\n%s" % (j[1], j[2], r["out"][-2000:]))
+    ctx.notes["session_probes"] = {"transfer_placed_after_a_refused_one_reachable": True, "model_without_reset_on_refusal_violates_HonestSucceeds": True}
+
+
+def generate(ctx, quick):
+    def one(cfg):
+        r = ctx.tlc("Fsim_Gen", cfg, workers=1, quiet=True, timeout=900)
+        if r["errors"]:
+            raise Inconclusive("Fsim_Gen/%s failed:\n%s" % (cfg, r["out"][-3000:]))
+        ctx.cov["transitions"] += r.get("generated", 0) or 0
+        behs, seen = [], set()
+        for b in ctx.behaviours(r):
+            k = json.dumps(b, sort_keys=True)
+            if k not in seen:
+                seen.add(k)
+                behs.append(b)
+        return behs
+    with ThreadPoolExecutor(max_workers=2) as ex:
+        singles, sessions = list(ex.map(one, ["Fsim_Gen.cfg" if quick else "Fsim_Gen_big.cfg", "Fsim_Gen_sess.cfg"]))
+    singles = [b for b in singles if len(b["xs"]) == 1]
+    sessions = [b for b in sessions if len(b["xs"]) >= 2]
+    verdicts = {x["expect"] for b in singles for x in b["xs"]}
+    if len(singles) < 100 or verdicts != {"placed", "failed"}:
+        raise Inconclusive("vacuous generation: %d single-transfer behaviours, verdicts %s" % (len(singles), verdicts))
+    after_refusal = sum(1 for b in sessions if any(b["xs"][i]["expect"] == "failed" and b["xs"][i + 1]["expect"] == "placed" for i in range(len(b["xs"]) - 1)))
+    if len(sessions) < 100 or not after_refusal:
+        raise Inconclusive("vacuous session generation: %d sessions, %d with a placed transfer after a refused one" % (len(sessions), after_refusal))
+    return singles, sessions
+
+
+def session_class(b):
+    return (b["sess"]["mod"], b["sess"]["must"], tuple(x["sc"]["cor"] for x in b["xs"]))
+
+
 def run(ctx):
     quick = ctx.quick()
     rnd = random.Random(ctx.seed * 1000003 + 17)
@@ -141,30 +224,41 @@ def run(ctx):
     selftest = os.environ.get("VERIF_SELFTEST", "")
 
     # 1. design level
-    ctx.model_check("Fsim", "Fsim_MC.cfg" if quick else "Fsim_MC_big.cfg", timeout=900)
+    design_level(ctx, quick)
 
     # 2. all behaviours with their verdicts
-    r = ctx.tlc("Fsim_Gen", "Fsim_Gen.cfg" if quick else "Fsim_Gen_big.cfg", workers=1, quiet=True, timeout=900)
-    if r["errors"]:
-        raise Inconclusive("Fsim_Gen failed:\n" + r["out"][-3000:])
-    ctx.cov["transitions"] += r.get("generated", 0) or 0
-    behs, seen = [], set()
-    for b in ctx.behaviours(r):
-        k = json.dumps(b, sort_keys=True)
-        if k not in seen:
-            seen.add(k)
-            behs.append(b)
-    if len(behs) < 100 or {b["expect"] for b in behs} != {"placed", "failed"}:
-        raise Inconclusive("vacuous generation: %d behaviours, verdicts %s" % (len(behs), {b["expect"] for b in behs}))
-    ctx.log("TLC enumerated %d scenario behaviours (%d placed, %d failed)" % (
-        len(behs), sum(b["expect"] == "placed" for b in behs), sum(b["expect"] == "failed" for b in behs)))
-    ctx.sample({"tlc_behaviour": behs[len(behs) // 2]})
+    singles, sessions = generate(ctx, quick)
+    ctx.log("TLC enumerated %d single-transfer behaviours (%d placed, %d failed) and %d sessions of 2-3 transfers (%d classes)" % (
+        len(singles), sum(b["xs"][0]["expect"] == "placed" for b in singles), sum(b["xs"][0]["expect"] == "failed" for b in singles),
+        len(sessions), len({session_class(b) for b in sessions})))
+    ctx.sample({"tlc_behaviour": singles[len(singles) // 2]})
+    ctx.sample({"tlc_session": next(b for b in sessions if len(b["xs"]) == 3 and b["xs"][0]["expect"] == "failed" and b["xs"][1]["expect"] == "placed")})
 
-    # 3. concrete transfers
-    rnd.shuffle(behs)
+    # 3. concrete sessions.  quick: two thirds of the download/upload behaviours and of the wget behaviours against a
+    #    server with Content-Length, a quarter of those against the other server behaviours (every module /
+    #    server behaviour / corruption / whole-or-partial-last-chunk class at least once), and one session of every
+    #    (module, MustDownload, corruption sequence) class.
+    rnd.shuffle(singles)
+    rnd.shuffle(sessions)
+    if quick:
+        chosen, seen = [], set()
+        for b in singles:
+            sc = b["xs"][0]["sc"]
+            k = (sc["mod"], sc["srv"], sc["cor"], sc["len"] % sc["chunk"] == 0)
+            if k not in seen or rnd.random() < (0.66 if sc["srv"] in ("na", "cl") else 0.25):
+                seen.add(k)
+                chosen.append(b)
+        seen = set()
+        for b in sessions:
+            k = session_class(b)
+            if k not in seen:
+                seen.add(k)
+                chosen.append(b)
+    else:
+        chosen = singles + sessions
     cases = []
-    for b in behs:
-        cases += concretise(b, rnd, quick, len(cases) + 1)
+    for b in chosen:
+        cases += concretise(b, rnd, quick)
     for i, c in enumerate(cases):
         c["id"] = i + 1
     wd = ctx.sub("replay")
@@ -175,15 +269,21 @@ def run(ctx):
     runs = split_runs(read_ndjson(tpath))
     if len(runs) != len(cases):
         raise Inconclusive("harness returned %d runs for %d cases" % (len(runs), len(cases)))
-    for rr in runs:
+    for rr, c in zip(runs, cases):
         for ev in rr:
             if ev["ev"] == "harness_err":
                 raise Inconclusive("harness error: %s" % ev.get("what"))
         if rr[-1]["ev"] != "end" and not any(e["ev"] == "crash" for e in rr):
             raise Inconclusive("run %s has no end event" % rr[0].get("id"))
-    ctx.log("executed %d transfers in the real TO2 pair" % len(runs))
-    # a corruption that could not be applied (the addressed message never came) says nothing: drop the run
-    keep = [i for i, rr in enumerate(runs) if rr[-1]["ev"] != "end" or rr[-1].get("cor_applied", True) or rr[-1]["stalled"] or rr[-1]["to2_err"]]
+        if rr[-1]["ev"] == "end" and (rr[-1]["started"] < 1 or len(xends(rr)) != rr[-1]["started"]):
+            raise Inconclusive("run %s: %d transfers started, %d ended: %s" % (rr[0].get("id"), rr[-1]["started"], len(xends(rr)), rr[-1].get("msg")))
+    ctx.log("executed %d sessions (%d transfers) in the real TO2 pair" % (len(runs), sum(len(xends(r)) for r in runs)))
+    # a corruption that could not be applied (the addressed message never came) says nothing: drop the session
+    def usable(rr):
+        if rr[-1]["ev"] != "end":
+            return True
+        return all(e.get("cor_applied", True) or e["stalled"] or e["to2_err"] for e in xends(rr))
+    keep = [i for i, rr in enumerate(runs) if usable(rr)]
     ctx.notes["corruption_not_applied_dropped"] = len(runs) - len(keep)
     runs, cases = [runs[i] for i in keep], [cases[i] for i in keep]
     for i, (rr, c) in enumerate(zip(runs, cases)):
@@ -191,72 +291,130 @@ def run(ctx):
             ev["run"] = i + 1
 
     if selftest == "corrupt":
-        v1 = next(x for x in runs if x[-1]["ev"] == "end" and x[-1]["dest"] == "same")
-        v1[-1]["dest"] = "absent"           # an identical file that "did not arrive"
-        v2 = next(x for x in runs if x[-1]["ev"] == "end" and x[-1]["dest"] == "absent" and x[0]["cor"] == "digest")
-        v2[-1]["dest"] = "same"             # a file placed although the digest was altered
-        v3 = next(x for x in runs if x is not v2 and x[-1]["ev"] == "end" and x[0]["cor"] == "data" and x[-1]["reported"])
-        v3[-1]["reported"], v3[-1]["to2_err"] = False, False    # a mismatch nobody reported
-        for v in (v1, v2, v3):
-            v[0]["class"] = "SELFTEST " + v[0]["class"]
+        def single(x):
+            return x[-1]["ev"] == "end" and x[0]["nx"] == 1
+        v1 = next(x for x in runs if single(x) and xends(x)[0]["dest"] == "same")
+        xends(v1)[0]["dest"] = "absent"           # an identical file that "did not arrive"
+        v2 = next(x for x in runs if single(x) and xends(x)[0]["dest"] == "absent" and x[1]["cor"] == "digest")
+        xends(v2)[0]["dest"] = "same"             # a file placed although the digest was altered
+        v3 = next(x for x in runs if x is not v2 and single(x) and x[1]["cor"] == "data" and xends(x)[0]["reported"])
+        xends(v3)[0]["reported"], xends(v3)[0]["to2_err"] = False, False    # a mismatch nobody reported
+        multi = [x for x in runs if x[-1]["ev"] == "end" and x[-1]["started"] >= 2 and x not in (v1, v2, v3)]
+        v4 = next(x for x in multi if len(x[-1]["intact"]) >= 1)
+        v4[-1]["intact"] = v4[-1]["intact"][1:]   # a file placed earlier in the session that is gone at its end
+        v5 = next(x for x in multi if x is not v4 and x[0]["mod"] == "download" and xends(x)[0]["reported"] and not xends(x)[0]["last"])
+        xends(v5)[0]["dest"] = "other"            # a refused file that left something at the destination
+        v6 = next(x for x in multi if x not in (v4, v5) and any(e["ev"] == "http_len" and e["len"] == -1 for e in x) and xends(x)[0]["dest"] == "same")
+        xends(v6)[0]["dest"], xends(v6)[0]["reported"] = "absent", True     # an intact streamed response refused
+        v6[-1]["intact"] = [i for i in v6[-1]["intact"] if i != 1]
+        for v in (v1, v2, v3, v4, v5, v6):
+            v[0]["selftest"] = True
 
-    # 4. TLC judges every run
-    bsz = 150
+    # 4. TLC judges every session
+    bsz = 120
     batches = [runs[i:i + bsz] for i in range(0, len(runs), bsz)]
     with ThreadPoolExecutor(max_workers=6) as ex:
         results = list(ex.map(lambda ib: validate_batch(ctx, ib[1], "b%d" % ib[0]), enumerate(batches)))
     rejected = {}
     for rs in results:
         for (rr, ev, reason) in rs:
-            rejected.setdefault(rr[0]["run"], (rr, ev, reason))
+            rejected.setdefault(rr[0]["run"], []).append((rr, ev, reason))
 
-    # 5. verdicts: the trace judgement, and the verdict TLC attached to the scenario class
-    def report(rr, reason):
+    # 5. verdicts: the trace judgement, and the verdicts TLC attached to the scenarios of the session
+    def report(rr, reason, i):
+        """i: number of the transfer the judgement is about (0: the session as a whole)"""
         c = cases[rr[0]["run"] - 1]
-        end = rr[-1]
-        key = "%s|%s|%s|%s" % (reason, c["module"], c["cor"], mtu_label(c))
-        if rr[0]["class"].startswith("SELFTEST"):
+        ends = xends(rr)
+        x = c["xfers"][max(i, 1) - 1]
+        key = "%s|%s|%s|%s" % (reason, c["module"], x["cor"], mtu_label(c))
+        if x["srv"] != "na":
+            key += "|srv=" + x["srv"]
+        if i > 1:
+            prev = ends[i - 2]
+            key += "|after_%s_transfer_in_session" % ("refused" if (prev["reported"] or prev["to2_err"]) else "placed")
+        elif i == 0:
+            key += "|session_end"
+        if rr[0].get("selftest"):
             key = "selftest|" + key
-        what = ("%s: %s size=%d chunk=%d dev_mtu=%d own_mtu=%d corruption=%s idx=%d delta=%d -> destination=%s names=%s reported=%s to2_err=%s stalled=%s errs=%s" % (
-            reason, c["module"], c["size"], c["chunk"], c["dev_mtu"], c["own_mtu"], c["cor"], c["cor_idx"], c["delta"], end.get("dest"),
-            end.get("names"), end.get("reported"), end.get("to2_err"), end.get("stalled"), (end.get("errs") or [end.get("msg", "")])[:1]))
+        e = ends[i - 1] if 0 < i <= len(ends) else rr[-1]
+        what = ("%s: %s session of %d (MustDownload=%s dev_mtu=%d own_mtu=%d) transfer %d: size=%d chunk=%d corruption=%s idx=%d delta=%d srv=%s -> "
+                "destination=%s reported=%s to2_err=%s stalled=%s tmp_left=%s errs=%s; session: %s; at the end names=%s" % (
+                    reason, c["module"], len(c["xfers"]), c["must"], c["dev_mtu"], c["own_mtu"], i, x["size"], x["chunk"], x["cor"], x["cor_idx"],
+                    x["delta"], x["srv"], e.get("dest"), e.get("reported"), e.get("to2_err"), e.get("stalled"), e.get("tmp_left"),
+                    (e.get("errs") or [rr[-1].get("msg", "")])[:1],
+                    ["%s:%s->%s%s" % (y["cor"], y["expect"], z["dest"], "/reported" if (z["reported"] or z["to2_err"]) else "") for y, z in zip(c["xfers"], ends)],
+                    rr[-1].get("names")))
         ctx.violation(key, what, {"case": c, "events": rr, "replay": "write [case] to a file and run: vh fsim-replay -in file -out trace.ndjson"})
 
-    for runid, (rr, ev, reason) in sorted(rejected.items()):
-        report(rr, reason)
+    for runid, diags in sorted(rejected.items()):
+        for (rr, ev, reason) in diags:
+            report(rr, reason, ev.get("i", 0))
     nmis = 0
     for rr, c in zip(runs, cases):
-        end = rr[-1]
-        if end["ev"] != "end" or c["floor"] or rr[0]["run"] in rejected:
+        if rr[-1]["ev"] != "end" or c["floor"] or rr[0]["run"] in rejected:
             continue
-        failed = end["reported"] or end["to2_err"]
-        observed = "placed" if (end["dest"] == "same" and not failed) else ("failed" if (end["dest"] == "absent" and failed) else "neither")
-        if observed != c["expect"]:
-            nmis += 1
-            report(rr, "tlc_verdict_%s_observed_%s" % (c["expect"], observed))
+        ends = xends(rr)
+        for i, (x, e) in enumerate(zip(c["xfers"], ends)):
+            failed = e["reported"] or e["to2_err"]
+            observed = "placed" if (e["dest"] == "same" and not failed) else ("failed" if (e["dest"] == "absent" and failed) else "neither")
+            if observed != x["expect"]:
+                nmis += 1
+                report(rr, "tlc_verdict_%s_observed_%s" % (x["expect"], observed), i + 1)
+                break
+        else:
+            # the session went as far as the specification says: all transfers, or up to the one that ends it
+            planned = len(c["xfers"])
+            if len(ends) < planned and (ends[-1]["reported"] or ends[-1]["to2_err"]):
+                # a refusal ended the session where the specification lets it go on: allowed by the property
+                ctx.notes["sessions_ended_by_a_refusal_the_spec_lets_continue"] = ctx.notes.get("sessions_ended_by_a_refusal_the_spec_lets_continue", 0) + 1
+            elif len(ends) < planned:
+                raise Inconclusive("session %s: %d of %d transfers ran although none of them ended the session: %s" % (
+                    rr[0].get("id"), len(ends), planned, rr[-1].get("msg")))
 
     # 6. coverage
-    feats = set()
+    feats, nx, after_refused, nocl_ok = set(), 0, 0, 0
     for rr, c in zip(runs, cases):
-        end = rr[-1]
-        feats.add((c["class"], mtu_label(c), c["chunk"], end.get("dest"), bool(end.get("reported") or end.get("to2_err"))))
+        ends = xends(rr)
+        nx += len(ends)
+        for i, (x, e) in enumerate(zip(c["xfers"], ends)):
+            failed = bool(e.get("reported") or e.get("to2_err"))
+            prev = "first" if i == 0 else ("after_refused" if (ends[i - 1]["reported"] or ends[i - 1]["to2_err"]) else "after_placed")
+            feats.add((x["class"], mtu_label(c), prev, e.get("dest"), failed))
+            if prev == "after_refused" and e.get("dest") == "same" and not failed:
+                after_refused += 1
+            if x["srv"] in NOCL and e.get("dest") == "same" and not failed:
+                nocl_ok += 1
+    if not selftest and (after_refused == 0 or nocl_ok == 0):
+        raise Inconclusive("no intact transfer placed after a refused one (%d) or none placed from a response without Content-Length (%d): the new dimensions were not exercised" % (after_refused, nocl_ok))
     ctx.cov["traces_validated_against_impl"] += len(runs)
     ctx.cov["evaluations"] += sum(len(x) for x in runs)
     ctx.cov["distinct_nontrivial"] += len(feats)
-    ctx.cov["rule"] = ("one evaluation = one recorded event (announcement, data chunk, end state) of a real transfer checked as a step of Fsim.tla; "
-                       "distinct = distinct (scenario class, MTU class, chunk parameter, destination state, failure reported) tuples")
-    ctx.notes["transfers"] = len(runs)
-    ctx.notes["scenario_behaviours_from_tlc"] = len(behs)
+    ctx.cov["rule"] = ("one evaluation = one recorded event (announcement, response header, data chunk, state a transfer left behind, state at the end of the session) "
+                       "of a real TO2 session checked as a step of Fsim.tla; "
+                       "distinct = distinct (scenario class incl. server behaviour, MTU class, position in the session (first / after a placed / after a refused transfer), destination state, failure reported) tuples")
+    ctx.notes["sessions"] = len(runs)
+    ctx.notes["transfers"] = nx
+    ctx.notes["sessions_of_2_or_3_transfers"] = sum(1 for c in cases if len(c["xfers"]) > 1)
+    ctx.notes["intact_transfers_placed_after_a_refused_one"] = after_refused
+    ctx.notes["placed_from_response_without_content_length"] = nocl_ok
+    ctx.notes["scenario_behaviours_from_tlc"] = {"single_transfers": len(singles), "sessions": len(sessions)}
     ctx.notes["rejected_by_trace_spec"] = len(rejected)
     ctx.notes["verdict_mismatches"] = nmis
-    ctx.notes["by_module"] = {m: sum(1 for c in cases if c["module"] == m) for m in ("download", "upload", "wget")}
-    ctx.notes["by_corruption"] = {m: sum(1 for c in cases if c["cor"] == m) for m in ("none", "data", "digest", "len+", "len-")}
+    ctx.notes["by_module"] = {m: sum(len(c["xfers"]) for c in cases if c["module"] == m) for m in ("download", "upload", "wget")}
+    ctx.notes["by_corruption"] = {m: sum(1 for c in cases for x in c["xfers"] if x["cor"] == m) for m in ("none", "data", "digest", "len+", "len-")}
+    ctx.notes["by_http_server_behaviour"] = {m: sum(1 for c in cases for x in c["xfers"] if x["srv"] == m) for m in ("cl", "nocl", "flushed", "close", "clsrc", "redirect")}
     ctx.notes["floor_cases_only_safety_judged"] = sum(1 for c in cases if c["floor"])
-    okr = next((x for x in runs if x[0]["cor"] == "data" and x[0]["run"] not in rejected), None)
+    # not part of the property (the temp directory is not the destination, the session is over): a refused upload
+    # leaves the owner's temp file behind
+    ctx.notes["refused_uploads_leaving_a_temp_file_in_the_temp_dir"] = sum(
+        1 for rr, c in zip(runs, cases) if c["module"] == "upload" for e in xends(rr) if e["tmp_left"] and (e["reported"] or e["to2_err"]) and not e["stalled"])
+    okr = next((x for x in runs if x[0]["nx"] == 3 and x[0]["run"] not in rejected and xends(x) and xends(x)[0]["reported"]), None)
     if okr:
-        ctx.sample({"accepted_run": okr})
+        ctx.sample({"accepted_session": okr})
     ctx.assumptions += ["TLC and the CommunityModules Json module", "SHA-384 is collision free on the runs (digests are abstract in Fsim.tla)",
                         "the wrapper between library and receiving module sees exactly what the module is given",
+                        "net/http (client) delivers a body as HTTP frames it: cut at the Content-Length, an error if it ends before; what the local servers write is what the harness records",
+                        "owner module i of a session is first called only after owner module i-1 completed (one module per TO2.OwnerServiceInfo): the harness attributes messages to transfers by that",
                         "below the MTU floor of a module (its fixed announcements do not fit one message) only safety is judged",
                         "a transfer whose announced length is never reached is ended by a bounded context; the error result is the reported failure"]
     return "model_checking"
